@@ -1,25 +1,25 @@
-\* quick: two read transactions and one writer interleaved at operation granularity
+\* quick: as kv with a single key (values: absent, empty, v1), nested bucket, commit/rollback, flush or not, crash between commits, clean restart
 INIT Init
 NEXT Next
 CONSTANTS
   KeyOrder <- K1
   ValSet <- V2
-  NameOrder <- N0
-  MaxDepth = 0
+  NameOrder <- N1
+  MaxDepth = 1
   BlockOrder <- B0
   RawLen <- MC_RawLen
   Limit = 186
   PruneTarget = 186
   MaxTx = 2
-  MaxOps = 1
-  Readers <- R2
-  MaxReads = 2
+  MaxOps = 2
+  Readers <- NoReaders
+  MaxReads = 0
   MaxFaults = 0
-  CrashMode = "none"
+  CrashMode = "idle"
   PowerLoss = FALSE
-  MaxCrash = 0
+  MaxCrash = 1
   FlushModes <- FlushBoth
-  AllowRestart = FALSE
+  AllowRestart = TRUE
   MaxCur = 0
   PutPaths <- AllPaths
   CurSeeks = FALSE
